@@ -205,6 +205,14 @@ def sound(cloud, wt, worker_cores, c, m, st, gc, gm, gs):
             & (gc >= 1) & (gm >= 0) & (gs >= 0) & (gs * GIB <= MAX_STORAGE[cloud]))
 
 
+def share(ck):
+    """250 * 2^ck mcpu for a (symbolic) exponent, branch-free: the cpu requests the front end accepts."""
+    c = 0
+    for j in range(0, 13):
+        c = c + (ck == j) * (250 << j)
+    return c
+
+
 def set_slack(cloud, slacks):
     floatcut.NONDET.clear()
     for wt, s in zip(types(cloud), slacks):
